@@ -46,6 +46,9 @@ func checkC16(w *World, r *Report) {
 	ruleFormatExchange(w, r, "C16")
 	ruleTerminalCancel(w, r, "C16", fi)
 	ruleTriggerCancels(w, r, "C16")
+	ruleDecorExchange(w, r, "C16")
+	ruleDecorAlwaysCalled(w, r, "C16")
+	ruleStateAgrees(w, r, "C16")
 	checkCloseOnce(w, r, "C16.R5")
 	checkHeapSendDiscipline(w, r, "C16.R4")
 }
